@@ -10,7 +10,7 @@ const char* vh_property = "C04";
 /* ---------------- base sets ---------------- */
 #define NB2 196         /* pairs over {A,C}, length 1..3 */
 #define NB3 216         /* triples over {A,C}, length 1..2 */
-#define NBX 4           /* larger sets: 12 x ~70 nucleotide, 12 x ~70 protein, 5 x 130, 3 x 61 */
+#define NBX 5           /* larger sets: 12 x ~70 nucleotide, 12 x ~70 protein, 5 x 130, 3 x 61, 60 x ~25 */
 static uint64_t nbase(int tier) { (void)tier; return NB2 + NB3 + NBX; }
 
 static void base_build(uint64_t b, struct kx_set* s)
@@ -32,8 +32,8 @@ static void base_build(uint64_t b, struct kx_set* s)
                 kx_set_add(s, buf, "three");
         }else{
                 int which = (int)(b - NB2 - NB3), i;
-                int n = which < 2 ? 12 : (which == 2 ? 5 : 3);
-                int len = which < 2 ? 70 : (which == 2 ? 130 : 61);
+                int n = which < 2 ? 12 : (which == 2 ? 5 : (which == 3 ? 3 : 60));
+                int len = which < 2 ? 70 : (which == 2 ? 130 : (which == 3 ? 61 : 25));
                 const char* alpha = which == 1 ? "LKWAVDEGST" : "ACGT";
                 uint64_t st = 31337 + (uint64_t)which;
                 static char base[256], tmp[256];
@@ -47,7 +47,7 @@ static void base_build(uint64_t b, struct kx_set* s)
 
 /* ---------------- presentations ---------------- */
 enum { P_WRAP = 0, P_BLANK = 7, P_PAD = 9, P_GAP1 = 12, P_GAP2 = 12 + 108, P_MOSTLY = 12 + 108 + 27, P_CLU = P_MOSTLY + 3, P_MSF = P_CLU + 6,
-       P_SPLIT = P_MSF + 6, P_STDIN = P_SPLIT + 12, P_END = P_STDIN + 4 };
+       P_SPLIT = P_MSF + 6, P_STDIN = P_SPLIT + 12, P_LATE = P_STDIN + 4, P_NONL = P_LATE + 6, P_END = P_NONL + 3 };
 static const int WRAPS[7] = {1, 2, 3, 59, 60, 61, 0};
 static const char GAPSYM[3] = {'-', '.', '~'};
 static const int RUNLEN[3] = {1, 2, 100};
@@ -109,7 +109,7 @@ static void equalise(char rows[][4096], int n, char sym)
         }
 }
 
-static char ROWS[16][4096];
+static char ROWS[64][4096];
 static char TXT[1 << 17];
 
 static void write_fasta_rows(const struct kx_set* s, int from, int to, int wrap, const char* path)
@@ -188,8 +188,13 @@ static const char* present_name(int p)
                 snprintf(b, sizeof b, "MSF file, name padding %d, %s", (const int[]){1, 5, 200}[q % 3], q / 3 ? "internal gaps" : "end-padded");
         }else if(p < P_STDIN){
                 snprintf(b, sizeof b, "records split over several files (variant %d)", p - P_SPLIT);
-        }else{
+        }else if(p < P_LATE){
                 snprintf(b, sizeof b, "command line with standard input (variant %d)", p - P_STDIN);
+        }else if(p < P_NONL){
+                int q = p - P_LATE;
+                snprintf(b, sizeof b, "gap characters ('%c') only in the last %d record(s), ragged FASTA", GAPSYM[q % 3], q / 3 ? 8 : 1);
+        }else{
+                snprintf(b, sizeof b, "%s file whose last line has no terminating newline", (const char*[]){"FASTA", "Clustal", "MSF"}[p - P_NONL]);
         }
         return b;
 }
@@ -317,7 +322,7 @@ static int present(const struct kx_set* s, int p, struct files* f)
                                         write_fasta_rows(s, a, b, 60, f->path[part]);
                                 }else{
                                         /* block formats need equal row lengths within the file */
-                                        char save[16][4096];
+                                        static char save[64][4096];
                                         int k;
                                         for(k = a; k < b; k++){
                                                 strcpy(save[k], ROWS[k]);
@@ -344,6 +349,32 @@ static int present(const struct kx_set* s, int p, struct files* f)
                                 }
                         }
                 }
+        }else if(p >= P_LATE && p < P_NONL){
+                int q = p - P_LATE, k = q / 3 ? 8 : 1;
+                if(n < 2){
+                        return 0;
+                }
+                for(i = 0; i < n; i++){
+                        if(i >= n - k && i > 0){
+                                gapped(s, i, q % 3, 2, 1, 1, 0, ROWS[i]);
+                        }
+                }
+                write_fasta_rows(s, 0, n, 60, f->path[0]);
+        }else if(p >= P_NONL){
+                int q = p - P_NONL;
+                size_t l;
+                if(q == 0){
+                        write_fasta_rows(s, 0, n, 60, f->path[0]);
+                }else{
+                        equalise(ROWS, n, q == 2 ? '.' : '-');
+                        write_blocks(s, 0, n, q == 2, 3, f->path[0]);
+                }
+                /* TXT still holds the text: drop the final newline(s) */
+                l = strlen(TXT);
+                while(l > 0 && TXT[l - 1] == '\n'){
+                        l--;
+                }
+                vh_write_file(f->path[0], TXT, l);
         }else{
                 /* command line: 0: everything on stdin; 1: first record(s) on stdin, rest in a file; 2: one file, empty stdin; 3: stdin + two files */
                 int q = p - P_STDIN;
@@ -468,11 +499,11 @@ int vh_case(uint64_t id, int tier)
         }
         if(rc != OK || !got){
                 char sig[80];
-                snprintf(sig, sizeof sig, "sem:presentation-rejected.%s", p < P_SPLIT ? "single-file" : (p < P_STDIN ? "split-files" : "stdin"));
+                snprintf(sig, sizeof sig, "sem:presentation-rejected.%s", (p < P_SPLIT || p >= P_LATE) ? "single-file" : (p < P_STDIN ? "split-files" : "stdin"));
                 vh_fail(sig, "accepted as bare FASTA, rejected when presented as: %s", present_name(p));
         }else if(gl != wl || memcmp(got, want, wl) != 0){
                 char sig[80];
-                const char* cls = p < P_BLANK ? "wrap" : (p < P_PAD ? "blank-lines" : (p < P_GAP1 ? "padding" : (p < P_CLU ? "gaps" : (p < P_MSF ? "clustal" : (p < P_SPLIT ? "msf" : (p < P_STDIN ? "split-files" : "stdin"))))));
+                const char* cls = p < P_BLANK ? "wrap" : (p < P_PAD ? "blank-lines" : (p < P_GAP1 ? "padding" : (p < P_CLU ? "gaps" : (p < P_MSF ? "clustal" : (p < P_SPLIT ? "msf" : (p < P_STDIN ? "split-files" : (p < P_LATE ? "stdin" : (p < P_NONL ? "late-gaps" : "no-final-newline"))))))));
                 snprintf(sig, sizeof sig, "sem:presentation-changes-result.%s", cls);
                 vh_fail(sig, "%s: output differs from the bare-FASTA run: got %.120s ... want %.120s", present_name(p), got, want);
         }else{
